@@ -79,6 +79,11 @@ def run_case(ck, case, reqs, pending):
             return
         if ph.tension is None:
             ck.count("rejected_no_equations"); return
+        tabdev = max((abs(ph.pressure_table.get(cc, float("nan")) - v) for cc, v in ph.pressure.items()), default=0.0)
+        if set(ph.pressure_table) != set(ph.pressure) or not tabdev <= 1e-12 * (1.0 + max((abs(v) for v in ph.pressure.values()), default=0.0)):
+            ck.fail("the same pressure for every physical cell", f"variant {k}: the pressure table lists another value for a cell than the cell carries "
+                    f"(max deviation {tabdev:.3g})", c)
+            ck.case(case); return
         ifaces = sorted(tuple(sorted(r)) for r in ph.ridges)
         res = {"ifaces": ifaces, "coefs": ph.coefs, "tension": ph.tension, "pressure": ph.pressure, "wellposed": ph.wellposed,
                "sigma": ph.sigma, "removed": ph.removed_cells, "coef_tol": physical.coef_tolerance(sc, ph, fit)}
